@@ -115,7 +115,7 @@ static const double MEASURED[NINTEG][NMETRIC][6] = {
     /* account  n=0,81,164,140,0,0             */ {0, 1300, 1500, 2700, 0, 0},
   },
 };
-static const double CONVERGENCE[NINTEG] = {0.58, 0.9, 0.076, 0.06, 0.32, 0.39, 0.33, 0.29};   // 2.5 x worst measured ratio drift(acc/100)/drift(acc), capped at 0.9
+static const double CONVERGENCE[NINTEG] = {0.75, 0.75, 0.75, 0.75, 0.75, 0.75, 0.75, 0.75};   // drift must fall by >= 25 % when the accuracy is tightened 100x: theory (global error ~ acc^(p/(p+1))) predicts ratios 0.1 (order 1) .. 0.025 (order 4); worst clean ratio seen 0.37; a drift floor gives ~1
 // END MEASURED
 
 struct Model {
@@ -580,8 +580,15 @@ static void runCase(uint64_t caseSeed) {
     for (size_t i = 0; i < E.size(); ++i) { keMax = std::max(keMax, KEv[i]); peSpan = std::max(peSpan, std::abs(PEv[i] - PEv[0])); }
     const double scale = std::max(keMax + peSpan, 0.1);
     ++g_cases[integ];
+    // RungeKuttaFeldberg x stiff one-sided force onset (compliant contact, joint stop) is a known finding (zoo section): such
+    // cases are judged with the SAME thresholds but under the listed onset keys (value = fraction of the energy scale)
+    bool hasStop = false; for (auto& tg : M.tags) if (tg == "force.MobilityLinearStop") hasStop = true;
+    const bool rkfOnset = integ == 1 && (scn == 5 || hasStop);
+    if (rkfOnset) vh::D("class.onsetWithRungeKuttaFeldberg");
     auto judge = [&](Metric m, const char* pred, const std::string& key, double value) {
         const double C = std::max(MEASURED[integ][m][accExp - 3], 1.0), bound = 10 * C;
+        if (rkfOnset) { vh::P(pred, m == M_ACCOUNT ? "traj.zoo.account.onsetWithRungeKuttaFeldberg" : "traj.zoo.monotone.onsetWithRungeKuttaFeldberg",
+                              value * acc * T, bound * acc * T); return; }
         vh::P(pred, key + IN + ACC, value, bound);
         if (bound * acc * T < 0.1) ++g_informative[integ][m];                 // the bound allows < 10 % of the scale over the run
         else vh::D(std::string("uninformative.") + METRIC_NAMES[m] + "." + IN + ACC);
@@ -593,7 +600,8 @@ static void runCase(uint64_t caseSeed) {
             // same problem, accuracy/100: an accuracy-independent drift floor (force / potential mismatch, non-workless
             // constraint, wrong inertia ...) shows as a ratio near 1 whatever the integrator's constant
             double drift2 = 0; for (double e : tr2.E) drift2 = std::max(drift2, std::abs(e - tr2.E[0]));
-            vh::P("energy_drift_decreases_with_accuracy", "traj.energy.converges." + IN + ACC, drift2 / (drift + 1e-9 * scale), CONVERGENCE[integ]);
+            vh::P("energy_drift_decreases_with_accuracy", rkfOnset ? std::string("traj.zoo.monotone.onsetWithRungeKuttaFeldberg") : "traj.energy.converges." + IN + ACC,
+                  drift2 / (drift + 1e-9 * scale), CONVERGENCE[integ]);
             vh::D("second_run." + IN); ++g_converge[integ];
         }
     }
@@ -644,6 +652,7 @@ static void runCase(uint64_t caseSeed) {
         {   // the reported dissipation never decreases (beyond the integration error of that auxiliary state)
             const double C = std::max(MEASURED[integ][M_ACCOUNT][accExp - 3], 1.0);
             if (scn == 5 && contactHigh) vh::P("dissipated_energy_nondecreasing", "traj.contact.account.highDissipation", up / (acc * T * scale) / (10 * C), 1);
+            else if (rkfOnset) vh::P("dissipated_energy_nondecreasing", "traj.zoo.account.onsetWithRungeKuttaFeldberg", up / scale, 10 * C * acc * T);
             else vh::P("dissipated_energy_nondecreasing", std::string(scn == 4 ? "traj.bushing.monotone." : "traj.contact.monotone.") + IN + ACC, up / (acc * T * scale), 10 * C);
         }
     }
